@@ -30,3 +30,7 @@ run revert-Z-struct-literal-box C14 "struct-literal default naming a self-refere
 run revert-ZA-const-to-typedef C14 "constant as default of a field typed by a typedef" C14 C20
 run revert-ZB-default-path C14 "struct literal default with an unnamed non-optional inner field, IDL struct named Default" C14
 run revert-ZC-name-collision-fixpoint C14 "three names pairwise close after case conversion (aB, AB, Ab)" C14
+run revert-ZD-set-constant C14 "non-empty set constant" C14
+run revert-ZE-string-literal-vec C14 "string literal default on a binary field with pilota.rust_type = vec" C14
+run revert-ZF-const-to-string C14 "string constant default on a field with pilota.rust_type = string / binary" C14
+run revert-ZG-proto-absolute-path C14 "nested protobuf message with the simple name of another message, referring to it by its absolute name" C05 C06 C14
